@@ -1327,7 +1327,8 @@ def oracle(c, obs):
             for ch, fks in rws.items():
                 crels = [ri for ri, r in enumerate(rels) if r[1] == objcls[ch]]
                 for ri, v in zip(crels, fks):
-                    if v is not None and v not in rws and rels[ri][2] & DO:
+                    # (a row whose object was expunged before the flush is outside the session's reach)
+                    if v is not None and v not in rws and rels[ri][2] & DO and (before["st"][ch] in _IN or after["st"][ch] in _IN):
                         tag = "X"
                         if v in before["mk"] and ch not in before["mk"] and ch in before["coll"].get((v, ri), ()):
                             tag = "F2"
